@@ -183,6 +183,51 @@ def run(oc, tier, seed, model_available, escalate):
             oc.count("single-call pairs")
         if idx % max(1, len(streams) // 4) == 0:
             oc.sample({"request": lines[-1][:300], "impl_reply": impl[-1][:200]})
+    # ---- the scan as the whole-file tool drives it: get_next_entry (coordinates) then its entry_fields(), which moves the cursor of the
+    # same file handle, then the next call - every marker of the stream must yield exactly one entry, whatever the entries hold (also entries
+    # of 0-3 bytes, without delimiters, or full of delimiters)
+    import io
+    from pyFileFixity import structural_adaptive_ecc as sa_
+    from pyFileFixity.lib.aux_funcs import get_next_entry as gne_
+    MK = bytes([0xFE, 0xFF] * 5)
+    DL = bytes([0xFA, 0xFF, 0xFA, 0xFF, 0xFA])
+    rngl = random.Random(seed * 31337 + 14)
+    for _ in range((300 if tier == "quick" else 5000) * (2 if escalate else 1)):
+        ents = []
+        for _e in range(rngl.randint(1, 6)):
+            kind = rngl.choice(["tiny", "tiny", "normal", "nodelim", "delims", "empty"])
+            if kind == "tiny":
+                e = bytes(rngl.choice([0x41, 0xFA, 0xFF, 0x00]) for _ in range(rngl.randint(0, 4)))
+            elif kind == "empty":
+                e = b""
+            elif kind == "normal":
+                e = b"name" + DL + b"12" + DL + b"pp" + DL + b"ss" + DL + bytes(rngl.choice([0x41, 0x42, 0x00]) for _ in range(rngl.randint(0, 30)))
+            elif kind == "nodelim":
+                e = bytes(rngl.choice([0x41, 0x42, 0xFA]) for _ in range(rngl.randint(5, 25)))
+            else:
+                e = DL * rngl.randint(1, 5) + bytes(rngl.choice([0x41, 0xFF]) for _ in range(rngl.randint(0, 6)))
+            ents.append(e)
+        stream = bytes(rngl.choice([0x23, 0x2a]) for _ in range(rngl.randint(0, 12))) + b"".join(MK + e for e in ents)
+        nmark = len(occurrences(stream, MK))
+        fh = io.BytesIO(stream)
+        got = []
+        try:
+            for _c in range(nmark + 3):
+                pos = gne_(fh, MK, True)
+                if pos is None:
+                    break
+                got.append(tuple(pos))
+                sa_.entry_fields(fh, pos, DL)
+            res = None
+        except Exception as ex:
+            res = "raised %s: %s" % (type(ex).__name__, str(ex)[:80])
+        oc.oracle_cases += 1
+        oc.count("scan loop of the whole-file tool (get_next_entry + entry_fields)")
+        want = spec_all(stream, MK)
+        if res is not None or got != [tuple(x) for x in want]:
+            oc.violations.append({"input": {"marker": MK.hex(), "stream": stream.hex(), "blocksize": 65535, "loop": "get_next_entry + structural_adaptive_ecc.entry_fields"},
+                                  "impl": {"entries": got, "error": res}, "required": {"entries": want},
+                                  "what": "the scan loop of the whole-file tool (get_next_entry, then entry_fields on the same handle) does not yield every entry exactly once"})
     if model_available:
         model, err = common.run_driver(lines)
         if model is None:
